@@ -98,4 +98,74 @@ theorem decEVList_enc (l : List IEnumMember) : decEVList (l.map encMember) = som
   | nil => simp [decEVList]
   | cons x r ih => simp [decEVList, decEV_encMember, ih]
 
+@[simp] theorem optStr_str (x : String) : optStr (.str x) = some (some x) := rfl
+@[simp] theorem optStr_null : optStr .null = some none := rfl
+
+theorem asTypeDefinition_enc (s : Schema) (url : String → Option String) (t : ITypeDef) :
+    (decType (encTypeDef s url t)).map asTypeDefinition = some (.ok (AstSchema.cleanType t)) := by
+  cases t with | mk kind name desc fields interfaces possible members inputs =>
+  cases kind <;>
+    simp [encTypeDef, decType, decTypeKvs, putOnce, reqStr, optStr_optStrJ, optFieldList, optIVList,
+      optTypeNameList, optEVList, fieldList_enc, ivList_enc, typeNameList_enc, decEVList_enc, finishType,
+      asTypeDefinition, kindStr, collect_ok, AstSchema.cleanType, possibleOf]
+
+theorem typeRecList_enc (s : Schema) (url : String → Option String) (l : List ITypeDef) :
+    (typeRecList (l.map (encTypeDef s url))).map (fun rs => collect (rs.map asTypeDefinition))
+      = some (.ok (l.map AstSchema.cleanType)) := by
+  induction l with
+  | nil => simp [typeRecList, collect]
+  | cons x r ih =>
+    have hx := asTypeDefinition_enc s url x
+    cases hd : decType (encTypeDef s url x) with
+    | none => simp [hd] at hx
+    | some rx =>
+      simp [hd] at hx
+      cases hr : typeRecList (r.map (encTypeDef s url)) with
+      | none => simp [hr] at ih
+      | some rr =>
+        simp [hr] at ih
+        simp [typeRecList, hd, hr, collect, hx, ih]
+
+theorem strList_enc (l : List String) : strList (l.map Json.str) = some l := by
+  induction l with
+  | nil => simp [strList]
+  | cons x r ih => simp [strList, reqStr, ih]
+
+theorem decDir_encDirective (s : Schema) (d : IDirectiveDef) : decDir (encDirective s d) = some d := by
+  cases d with | mk name desc locations args repeatable =>
+  simp [encDirective, decDir, decDirKvs, putOnce, reqStr, optStr_optStrJ, optBool, reqStrList, strList_enc, reqIVList,
+    ivList_enc, finishDir, collect_ok]
+
+theorem dirList_enc (s : Schema) (l : List IDirectiveDef) : dirList (l.map (encDirective s)) = some l := by
+  induction l with
+  | nil => simp [dirList]
+  | cons x r ih => simp [dirList, decDir_encDirective, ih]
+
+theorem optNameObj_encRoot (r : Option String) : optNameObj (encRoot r) = some r := by
+  cases r <;> simp [encRoot, optNameObj, reqNameObj, nameObjKvs, putOnce, reqStr]
+
+theorem typeRecList_enc' (s : Schema) (url : String → Option String) (l : List ITypeDef) :
+    ∃ rs, typeRecList (l.map (encTypeDef s url)) = some rs ∧
+      collect (rs.map asTypeDefinition) = .ok (l.map AstSchema.cleanType) := by
+  have h := typeRecList_enc s url l
+  cases hr : typeRecList (l.map (encTypeDef s url)) with
+  | none => simp [hr] at h
+  | some rs => exact ⟨rs, rfl, by simpa [hr] using h⟩
+
+/-- the reader inverts the specification's renderer (for a schema with a query root) -/
+theorem fromIntrospection_encode (s : Schema) (url : String → Option String) (q : String)
+    (hq : s.roots.query = some q) :
+    fromIntrospection (encode s url)
+      = .ok { desc := s.desc, roots := s.roots, explicitRoots := false,
+              types := extendTypes [] (s.types.map AstSchema.cleanType),
+              directives := extendDirectives [] s.directives } := by
+  obtain ⟨rs, hrs, hcol⟩ := typeRecList_enc' s url s.types
+  have hroots : s.roots = { query := some q, mutation := s.roots.mutation, subscription := s.roots.subscription } := by
+    cases hr : s.roots with | mk a b c => simp [hr] at hq; simp [hq]
+  have hqobj : reqNameObj (encRoot (some q)) = some q := by
+    simp [encRoot, reqNameObj, nameObjKvs, putOnce, reqStr]
+  simp only [encode, fromIntrospection, resultKvs]
+  simp [decSchemaKvs, putOnce, optStr_optStrJ, hq, hqobj, optNameObj_encRoot, hrs, dirList_enc, finishSchema, hcol]
+  rw [hroots]
+
 end NitroVerif.Introspect
